@@ -747,3 +747,247 @@ def da_rewinds_streams(path):
 
 
 C20_JOBS.append(('nbdime.webapp.nbdimeserver.ApiDiffHandler.get_notebook_argument', HANDLER_ARG, [('rewinds-streams', da_rewinds_streams), ('frame', hd_frame)], False))
+
+
+# ------------------------------------------------------------------------------------------ C16
+
+RENDER = dict(COMMON, **{
+    '*.out.write': {'effect': 'out_write', 'raises': True, 'returns': 'none'},
+    '<config.out>.write': {'effect': 'out_write', 'raises': True, 'returns': 'none'},
+    'nbdime.prettyprint.file_timestamp': {'effect': None, 'raises': False},
+    'nbdime.prettyprint.pretty_print_diff': {'effect': 'print_diff', 'raises': True, 'returns': 'none'},
+    'nbdime.prettyprint.external_diff_render': {'effect': 'ext_diff', 'raises': True},
+    'nbdime.prettyprint.colorize_source': {'effect': 'colorize', 'raises': True},
+    'nbdime.prettyprint.pretty_print_key': {'effect': 'print_key', 'raises': True, 'returns': 'none'},
+    'nbdime.prettyprint.pretty_print_multiline': {'effect': 'print_multiline', 'raises': True, 'returns': 'none'},
+    '*.replace': {'effect': None, 'raises': False}, '*.split': {'effect': None, 'raises': False}, '*.splitlines': {'effect': None, 'raises': False},
+    '*.join': {'effect': None, 'raises': False}, '*.strip': {'effect': None, 'raises': False},
+})
+
+
+def pp_empty_diff_silent(path):
+    "an empty diff writes nothing and renders nothing"
+    di = path.env['di']
+    if path.entails(z3.Not(truth(di)))[0]:
+        ok = not [e for e in path.effects if e.name in ('out_write', 'print_diff')]
+        return ok, 'nothing written for an empty diff'
+    if path.outcome == 'return':
+        ok = len(_eff(path, 'print_diff')) == 1 and len(_eff(path, 'out_write')) == 1
+        return ok, 'a non-empty diff writes the header and renders the entries'
+    return None
+
+
+def _find_app(term, name):
+    if term.decl().name() == name or (name.startswith('*') and term.decl().name().endswith(name[1:])):
+        return term
+    for c in term.children():
+        r = _find_app(c, name)
+        if r is not None:
+            return r
+    return None
+
+
+def git_no_color_flag(path):
+    "with colour disabled the git command has every colour flag removed (' --color-words' replaced by '')"
+    from pyvc.effects import attr_fn
+    ex = _eff(path, 'ext_diff')
+    if not ex:
+        return None
+    config = path.env['config']
+    use_color = truth(Sym('py', attr_fn['use_color'](as_py(config))))
+    cmd_term = as_py(ex[0].args[0])
+    if not path.possible(z3.Not(use_color)):
+        return True, 'colour on'
+    # under (path condition and colour off) the command must be git_diff_print_cmd with " --color-words" replaced by ""
+    rep = _find_app(cmd_term, '*.replace')
+    if rep is None:
+        return False, 'colour may be off on this path but no flag is removed from the git command'
+    if "' --color-words'" not in _consts_in(rep.arg(1)):
+        return False, 'the flag removed is not " --color-words"'
+    from pyvc.effects import as_py as _ap, const as _c
+    s_ = path.solver()
+    s_.add(z3.Not(use_color))
+    s_.add(rep.arg(2) != _ap(_c('')))
+    ok = s_.check() == z3.unsat
+    return ok, 'colour off => " --color-words" replaced by the empty string'
+
+
+def src_highlight_only_with_color(path):
+    "syntax highlighting (which emits ANSI sequences) happens only when colour is enabled"
+    from pyvc.effects import attr_fn
+    if not _eff(path, 'colorize'):
+        return None
+    config = path.env['config']
+    ok, _, v = path.entails(truth(Sym('py', attr_fn['use_color'](as_py(config)))))
+    return ok, 'colorize_source reached only under config.use_color (%s)' % v
+
+
+C16_JOBS = [
+    ('nbdime.prettyprint.pretty_print_notebook_diff', RENDER, [('empty-diff-silent', pp_empty_diff_silent)], False),
+    ('nbdime.prettyprint.diff_render_with_git', RENDER, [('no-color-flag', git_no_color_flag)], False),
+    ('nbdime.prettyprint.pretty_print_source', RENDER, [('highlight-only-with-color', src_highlight_only_with_color)], False),
+]
+
+
+def esc_literal_obligations(repo):
+    """Syntactic dataflow contract for ESC-freedom: in nbdime/prettyprint.py every string literal containing ESC and every reference to a
+    colorama constant occurs inside the `True` entry of col_const; every read of the colour constants goes through col_const[self.use_color]."""
+    import ast as _ast
+    import os as _os
+    path = _os.path.join(repo, 'nbdime', 'prettyprint.py')
+    tree = _ast.parse(open(path).read())
+    allowed = set()
+    sites = []
+    for node in _ast.walk(tree):
+        if isinstance(node, _ast.Assign) and any(isinstance(t, _ast.Name) and t.id == 'col_const' for t in node.targets) and isinstance(node.value, _ast.Dict):
+            for k, v in zip(node.value.keys, node.value.values):
+                if isinstance(k, _ast.Constant) and k.value is True:
+                    for sub in _ast.walk(v):
+                        allowed.add(id(sub))
+                if isinstance(k, _ast.Constant) and k.value is False:
+                    for sub in _ast.walk(v):
+                        if isinstance(sub, _ast.Constant) and isinstance(sub.value, str):
+                            sites.append(('col_const[False] literal %r is ESC free' % sub.value, '\x1b' not in sub.value))
+                        if isinstance(sub, _ast.Attribute) and isinstance(sub.value, _ast.Name) and sub.value.id == 'colorama':
+                            sites.append(('col_const[False] uses colorama.%s' % sub.attr, False))
+    for node in _ast.walk(tree):
+        if isinstance(node, _ast.Constant) and isinstance(node.value, str) and '\x1b' in node.value:
+            sites.append(('ESC literal at line %d inside col_const[True]' % node.lineno, id(node) in allowed))
+        if isinstance(node, _ast.Attribute) and _ast.unparse(node).startswith('colorama.') and not isinstance(getattr(node, 'ctx', None), _ast.Store):
+            if isinstance(node.value, _ast.Name) or (isinstance(node.value, _ast.Attribute) and isinstance(node.value.value, _ast.Name)):
+                if _ast.unparse(node).count('.') >= 2 or _ast.unparse(node) in ('colorama.init',):
+                    ok = id(node) in allowed or _ast.unparse(node) == 'colorama.init'
+                    sites.append(('colorama reference %s at line %d inside col_const[True]' % (_ast.unparse(node), node.lineno), ok))
+        if isinstance(node, _ast.Subscript) and isinstance(node.value, _ast.Name) and node.value.id == 'col_const':
+            ok = _ast.unparse(node.slice) in ('self.use_color',)
+            sites.append(('col_const indexed by %s at line %d' % (_ast.unparse(node.slice), node.lineno), ok))
+    return sites
+
+
+# ------------------------------------------------------------------------------------------ C19
+
+CONFIG = dict(COMMON, **{
+    'jupyter_core.paths.jupyter_config_path': {'effect': 'jupyter_path', 'raises': False},
+    'os.getcwd': {'effect': None, 'raises': False},
+    '*.insert': {'effect': 'path_insert', 'raises': False, 'returns': 'none'},
+    'nbdime.config._load_config_files': {'effect': 'load_files', 'raises': True},
+    'nbdime.config.recursive_update': {'effect': 'update', 'raises': True, 'returns': 'none'},
+    'nbdime.config.config_instance': {'effect': None, 'raises': False},
+    '*.configured_traits': {'effect': None, 'raises': False},
+    '*.mro': {'effect': None, 'raises': False}, 'builtins.reversed': {'effect': None, 'raises': False},
+    'builtins.issubclass': {'effect': None, 'raises': False, 'returns': 'bool'},
+    'builtins.ValueError': {'effect': None, 'raises': False}, 'builtins.list': {'effect': None, 'raises': False},
+    '*.keys': {'effect': None, 'raises': False},
+})
+
+
+def bc_layers(path):
+    """all built-in defaults are layered before any config section; each update goes into `config` with the caller's include_none;
+    a default layer is config_instance(c).configured_traits(c) and a section layer is disk_config[c.__name__] of the class being visited"""
+    if path.outcome != 'return':
+        return None
+    ups = _eff(path, 'update')
+    config = path.env.get('config')
+    disk = path.env.get('disk_config')
+    inc = path.env.get('include_none')
+    phase = 'disk'
+    kinds = []
+    for u in ups:
+        tgt, src = as_py(u.args[0]), as_py(u.args[1])
+        if not as_py(u.args[2]).eq(as_py(inc)):
+            return False, 'an update ignores include_none'
+        if tgt.eq(as_py(disk)):
+            kinds.append('file')
+        elif tgt.eq(as_py(config)):
+            s_ = str(src)
+            if 'configured_traits' in s_:
+                kinds.append('default')
+                c_term = src.arg(src.num_args() - 1)
+                if 'config_instance' not in s_ or not _mentions(src, c_term):
+                    return False, 'a default layer is not config_instance(c).configured_traits(c)'
+            elif 'getitem' in s_ and _mentions(src, as_py(disk)) and 'attr.__name__' in s_:
+                kinds.append('section')
+            else:
+                return False, 'config updated from an unexpected source: %s' % s_[:80]
+        else:
+            return False, 'update of an unexpected target'
+    order = {'file': 0, 'default': 1, 'section': 2}
+    seq = [order[k] for k in kinds]
+    if seq != sorted(seq):
+        return False, 'layers out of order: %s' % kinds
+    if not as_py(path.value).eq(as_py(config)):
+        return False, 'the layered dict is not what is returned'
+    return True, 'files -> defaults -> sections (%d updates)' % len(ups)
+
+
+def bc_cwd_first(path):
+    "the working directory is put in front of the jupyter config path (highest priority) before the files are loaded"
+    ins = _eff(path, 'path_insert')
+    load = _eff(path, 'load_files')
+    if path.outcome != 'return':
+        return None
+    if len(ins) != 1 or not load:
+        return False, 'cwd not inserted exactly once / files not loaded'
+    i = ins[0]
+    ok = i.args[1].kind == 'const' and i.args[1].t == 0 and 'getcwd' in str(as_py(i.args[2])) and path.effects.index(i) < path.effects.index(load[0])
+    jp = _eff(path, 'jupyter_path')
+    ok = ok and jp and as_py(i.args[0]).eq(as_py(jp[0].result)) and as_py(load[0].kwargs['path']).eq(as_py(jp[0].result))
+    return bool(ok), 'path.insert(0, os.getcwd()) on the jupyter config path, then load'
+
+
+C19_JOBS = [('nbdime.config.build_config', CONFIG, [('layers', bc_layers), ('cwd-first', bc_cwd_first)], False)]
+
+
+def c19_static_obligations(repo):
+    """Finite obligations read off the current sources/classes:
+    (a) build_config iterates `reversed(configurable.mro())` (least specific first) in both layering loops;
+    (b) _load_config_files walks the path list backwards (lowest priority first) so that higher-priority files override;
+    (c) for each of the entry points the documented sections occur in the resolution order most-specific first:
+        own < git-specific < diff|merge < web-tool < web < global."""
+    import ast as _ast
+    import os as _os
+    out = []
+    src = open(_os.path.join(repo, 'nbdime', 'config.py')).read()
+    tree = _ast.parse(src)
+    fns = {n.name: n for n in tree.body if isinstance(n, _ast.FunctionDef)}
+    bc = _ast.unparse(fns['build_config'])
+    out.append(('build_config walks reversed(configurable.mro())', 'reversed(configurable.mro())' in bc))
+    lf = _ast.unparse(fns['_load_config_files'])
+    out.append(('_load_config_files walks path[::-1]', 'path[::-1]' in lf))
+    # class table without importing nbdime: bases from the AST, C3 linearisation computed here
+    bases = {}
+    for n in tree.body:
+        if isinstance(n, _ast.ClassDef):
+            bases[n.name] = [_ast.unparse(b) for b in n.bases]
+    ep = {}
+    for n in tree.body:
+        if isinstance(n, _ast.Assign) and any(isinstance(t, _ast.Name) and t.id == 'entrypoint_configurables' for t in n.targets):
+            for k, v in zip(n.value.keys, n.value.values):
+                ep[k.value] = _ast.unparse(v)
+
+    def mro(c):
+        if c not in bases:
+            return [c]
+        seqs = [mro(b) for b in bases[c]] + [list(bases[c])]
+        res = [c]
+        while True:
+            seqs = [s for s in seqs if s]
+            if not seqs:
+                return res
+            for s in seqs:
+                cand = s[0]
+                if not any(cand in t[1:] for t in seqs):
+                    break
+            else:
+                raise ValueError('inconsistent hierarchy')
+            res.append(cand)
+            for s in seqs:
+                if s[0] == cand:
+                    del s[0]
+    rank = {'GitDiff': 1, 'GitMerge': 1, 'Diff': 2, 'Merge': 2, 'Show': 2, 'WebTool': 3, 'Web': 4, 'Global': 5}
+    out.append(('11 entry points declared', len(ep) == 11))
+    for name, cls in sorted(ep.items()):
+        order = mro(cls)
+        ranks = [0 if c == cls else rank[c] for c in order if c == cls or c in rank]
+        out.append(('%s resolves %s most specific first' % (name, [c for c in order if c == cls or c in rank]), ranks == sorted(ranks) and 'Global' in order))
+    return out
